@@ -2,7 +2,7 @@
     implemented by big.Int.SetString(lit, 0) on the lexemes the lexer can
     produce), decimal printing (big.Int.String), and the RFC 8259 number
     grammar. *)
-From Coq Require Import List NArith Bool Decimal DecimalN.
+From Coq Require Import List NArith Bool.
 From Verif Require Import Lib.Utf8 Jsonx.Lex.
 Import ListNotations.
 Local Open Scope N_scope.
@@ -39,70 +39,66 @@ Definition int_value (lit : list N) : option N :=
   | d => digits_val 10 dec_digit 0 d
   end.
 
-(** ** Decimal printing *)
+(** ** Decimal printing ((big.Int).String): least significant digit first,
+    then reversed.  The fuel is the number of bits of [n], never less than its
+    number of decimal digits (Jsonx/NumProofs.v). *)
 
-Fixpoint uint_codes (u : Decimal.uint) : list N :=
-  match u with
-  | Nil => []
-  | D0 u => 48 :: uint_codes u | D1 u => 49 :: uint_codes u
-  | D2 u => 50 :: uint_codes u | D3 u => 51 :: uint_codes u
-  | D4 u => 52 :: uint_codes u | D5 u => 53 :: uint_codes u
-  | D6 u => 54 :: uint_codes u | D7 u => 55 :: uint_codes u
-  | D8 u => 56 :: uint_codes u | D9 u => 57 :: uint_codes u
+Fixpoint dec_rev (fuel : nat) (n : N) : list N :=
+  match fuel with
+  | O => []
+  | S f => if n <? 10 then [48 + n] else (48 + n mod 10) :: dec_rev f (n / 10)
   end.
 
-Definition dec_string (n : N) : list N := uint_codes (N.to_uint n).
+Definition dec_string (n : N) : list N :=
+  rev (dec_rev (S (S (N.to_nat (N.log2 n)))) n).
 
 (** What encodeBasic writes for an integer token (without the sign). *)
 Definition int_json (lit : list N) : option (list N) :=
   option_map dec_string (int_value lit).
 
-(** ** RFC 8259 number grammar:
-    [ minus ] int [ frac ] [ exp ],  int = "0" / digit1-9 *DIGIT *)
+(** ** RFC 8259 number grammar
+    [ minus ] int [ frac ] [ exp ],  int = "0" / digit1-9 *DIGIT,
+    as the scanner of encoding/json recognises it: a machine that consumes
+    runes while a transition exists. *)
 
-Definition scan_digits (s : list N) : list N * list N := span is_digit s.
+Inductive nstate := NStart | NNeg | NZero | NInt | NDot | NFrac | NE | NESign | NExp.
 
-(** Longest prefix of [s] that is a JSON number; [None] if none. *)
-Definition scan_json_number (s : list N) : option (list N * list N) :=
-  let '(sg, s1) := match s with 45 :: r => ([45], r) | _ => ([], s) end in
-  match s1 with
-  | [] => None
-  | c :: r =>
-      if negb (is_digit c) then None
-      else
-        let '(ip, s2) :=
-          if c =? 48 then ([48], r)
-          else let '(d, s2) := scan_digits r in (c :: d, s2) in
-        let fr :=
-          match s2 with
-          | 46 :: r2 =>
-              let '(d, s3) := scan_digits r2 in
-              match d with [] => None | _ => Some (46 :: d, s3) end
-          | _ => Some ([], s2)
-          end in
-        match fr with
-        | None => None
-        | Some (fp, s3) =>
-            let ex :=
-              match s3 with
-              | e :: r3 =>
-                  if (e =? 101) || (e =? 69) then
-                    let '(esg, r4) :=
-                      match r3 with
-                      | x :: r3' => if (x =? 43) || (x =? 45) then ([x], r3') else ([], r3)
-                      | [] => ([], [])
-                      end in
-                    let '(d, s4) := scan_digits r4 in
-                    match d with [] => None | _ => Some (e :: esg ++ d, s4) end
-                  else Some ([], s3)
-              | [] => Some ([], [])
-              end in
-            match ex with
-            | None => None
-            | Some (ep, s4) => Some (sg ++ ip ++ fp ++ ep, s4)
-            end
-        end
+Definition nstep (st : nstate) (c : N) : option nstate :=
+  let digit := is_digit c in
+  let e := (c =? 101) || (c =? 69) in
+  match st with
+  | NStart => if c =? 45 then Some NNeg else if c =? 48 then Some NZero
+              else if digit then Some NInt else None
+  | NNeg => if c =? 48 then Some NZero else if digit then Some NInt else None
+  | NZero => if c =? 46 then Some NDot else if e then Some NE else None
+  | NInt => if digit then Some NInt else if c =? 46 then Some NDot
+            else if e then Some NE else None
+  | NDot => if digit then Some NFrac else None
+  | NFrac => if digit then Some NFrac else if e then Some NE else None
+  | NE => if (c =? 43) || (c =? 45) then Some NESign else if digit then Some NExp else None
+  | NESign => if digit then Some NExp else None
+  | NExp => if digit then Some NExp else None
   end.
+
+Definition naccept (st : nstate) : bool :=
+  match st with NZero | NInt | NFrac | NExp => true | _ => false end.
+
+Fixpoint nscan (st : nstate) (s : list N) : option (list N * list N) :=
+  match s with
+  | [] => if naccept st then Some ([], []) else None
+  | c :: r =>
+      match nstep st c with
+      | Some st' =>
+          match nscan st' r with
+          | Some (t, rest) => Some (c :: t, rest)
+          | None => None
+          end
+      | None => if naccept st then Some ([], s) else None
+      end
+  end.
+
+(** The number at the head of [s], and what follows it. *)
+Definition scan_json_number (s : list N) : option (list N * list N) := nscan NStart s.
 
 Definition is_json_number (t : list N) : bool :=
   match scan_json_number t with
